@@ -63,7 +63,9 @@ def make_target():
                 return
             if t.count("do") >= 2:
                 STATE["nontrivial"] += 1
-            if toks(got) != want:
+            # compared as character streams without white space: the byte-level alphabet can put an identifier directly
+            # behind `while (0)` (not valid C), where removing the wrapper glues two tokens together
+            if "".join(toks(got)) != "".join(want):
                 _fail("replace_do_while_0 differs from brace-matching removal", {"code": code, "got": got.strip(),
                                                                                "expected": " ".join(want)})
         else:
